@@ -2,6 +2,7 @@ package props
 
 import (
 	"fmt"
+	"os"
 	"sort"
 	"strings"
 	"testing"
@@ -32,6 +33,8 @@ type C08Case struct {
 	Lab     []string            `json:"labels,omitempty"`
 	// Stray: further files below regex-assembly/ that are no rule files (must be ignored by --all)
 	Stray map[string]string `json:"stray,omitempty"`
+	// ViaLink: every command is given the root through a symbolic link to it (-d link)
+	ViaLink bool `json:"via_link,omitempty"`
 }
 
 func (a Asm) arg() string { return strings.TrimSuffix(a.Name, ".ra") }
@@ -144,6 +147,22 @@ func genC08(t *rapid.T) C08Case {
 			lab["include-file-named-like-a-rule"] = true
 		}
 	}
+	// other sub-directories with copies named like rule files (drafts, an archive): only the assembly directory itself holds rule files
+	for _, name := range []string{"drafts/932100.ra", "old/archive/941100-chain1.ra", "drafts/932110.ra"} {
+		if rapid.IntRange(0, 7).Draw(t, "subdircopy") == 0 {
+			c.Stray[name] = "draft copy\nin a sub-directory\n"
+			lab["copy-named-like-a-rule-in-a-sub-directory"] = true
+		}
+	}
+	if rapid.IntRange(0, 5).Draw(t, "emptyinclude") == 0 {
+		// a word list of zero bytes: format gives it the header like any other file
+		c.Include["include/empty.ra"] = ""
+		lab["zero-byte-assembly-file"] = true
+	}
+	c.ViaLink = rapid.IntRange(0, 5).Draw(t, "vialink") == 0
+	if c.ViaLink {
+		lab["root-reached-through-a-symbolic-link"] = true
+	}
 	if rapid.IntRange(0, 7).Draw(t, "dirnamedra") == 0 {
 		c.Stray["932205.ra/inside.txt"] = "a directory named like an assembly file\n"
 		lab["directory-named-like-an-assembly-file"] = true
@@ -213,10 +232,23 @@ func checkC08(c C08Case) Outcome {
 		if err := c.tree().Write(root); err != nil {
 			panic(err)
 		}
+		if c.ViaLink {
+			if err := os.Symlink(root, sb.Path("link")); err != nil {
+				panic(err)
+			}
+		}
 		return sb, root
 	}
 	run := func(sb *cli.Sandbox, root string, args ...string) cli.Result {
-		return cli.Run(cli.Opt{Dir: sb.Root, Timeout: 60 * time.Second}, append([]string{"-d", root}, args...)...)
+		darg := root
+		if c.ViaLink {
+			darg = sb.Path("link")
+		}
+		global := []string{"-d", darg}
+		if len(args) > 0 && args[0] == "-o" {
+			global, args = append([]string{args[0], args[1]}, global...), args[2:]
+		}
+		return cli.Run(cli.Opt{Dir: sb.Root, Timeout: 60 * time.Second}, append(global, args...)...)
 	}
 	sa, ra := mk()
 	defer sa.Close()
@@ -259,12 +291,18 @@ func checkC08(c C08Case) Outcome {
 			singles = append(singles, run(sbB, rb, "regex", "format", c.Asms[i].arg()))
 		}
 		singles = append(singles, run(sbB, rb, "regex", "format", "common"), run(sbB, rb, "regex", "format", "words"))
+		if _, ok := c.Include["include/empty.ra"]; ok {
+			singles = append(singles, run(sbB, rb, "regex", "format", "empty"))
+		}
 	case "format-check":
 		allRes = run(sa, ra, "regex", "format", "--check", "--all")
 		for _, i := range c.Perm {
 			singles = append(singles, run(sbB, rb, "regex", "format", "--check", c.Asms[i].arg()))
 		}
 		singles = append(singles, run(sbB, rb, "regex", "format", "--check", "common"), run(sbB, rb, "regex", "format", "--check", "words"))
+		if _, ok := c.Include["include/empty.ra"]; ok {
+			singles = append(singles, run(sbB, rb, "regex", "format", "--check", "empty"))
+		}
 	case "compare":
 		allRes = run(sa, ra, "regex", "compare", "--all")
 		for _, i := range c.Perm {
@@ -283,7 +321,7 @@ func checkC08(c C08Case) Outcome {
 	}
 	if c.Mode == "format-check" {
 		// the files a single invocation can address: --all must report exactly those of them that the single checks report
-		addressable := map[string]bool{"common.ra": true, "words.ra": true}
+		addressable := map[string]bool{"common.ra": true, "words.ra": true, "empty.ra": true}
 		for _, a := range c.Asms {
 			addressable[a.Name] = true
 		}
